@@ -99,8 +99,9 @@ def decoded_lines(data: bytes):
     """Text lines as trojansource sees them (open(fname) in text mode with the detected encoding)."""
     try:
         enc, _ = tokenize.detect_encoding(io.BytesIO(data).readline)
-        text = io.TextIOWrapper(io.BytesIO(data), encoding=enc).read()
-        return text.splitlines(True)
+        # universal-newline lines (\n, \r\n, \r) — NOT str.splitlines(), which also breaks at \f, \v, U+2028 … (those are not line ends for
+        # Python's parser nor for a text-mode file)
+        return io.TextIOWrapper(io.BytesIO(data), encoding=enc).readlines()
     except Exception:
         return None
 
